@@ -1,0 +1,55 @@
+package language
+
+import (
+	"fmt"
+	"strings"
+)
+
+// CheckProjectionExpression tells whether the expression is a list of document paths separated
+// by commas, none of which starts with a reserved word. Projections are not applied to the
+// results, but a request with a malformed projection is refused like any other
+func CheckProjectionExpression(expression string) error {
+	l := NewLexer(expression)
+	tok := l.NextToken()
+
+	for {
+		if tok.Type != IDENT || isNumeral(tok.Literal) || strings.HasPrefix(tok.Literal, ":") {
+			return fmt.Errorf("syntax error; token: %q", tok.Literal)
+		}
+
+		if IsReservedWord(strings.ToUpper(tok.Literal)) {
+			return fmt.Errorf("attribute name is a reserved keyword; reserved keyword: %s", tok.Literal)
+		}
+
+		tok = l.NextToken()
+
+		// the rest of the document path: .name and [position]
+		for tok.Type == DOT || tok.Type == LBRACKET {
+			opening := tok.Type
+			tok = l.NextToken()
+
+			if tok.Type != IDENT || strings.HasPrefix(tok.Literal, ":") || isNumeral(tok.Literal) != (opening == LBRACKET) {
+				return fmt.Errorf("syntax error; token: %q", tok.Literal)
+			}
+
+			tok = l.NextToken()
+
+			if opening == LBRACKET {
+				if tok.Type != RBRACKET {
+					return fmt.Errorf("syntax error; token: %q", tok.Literal)
+				}
+
+				tok = l.NextToken()
+			}
+		}
+
+		switch tok.Type {
+		case EOF:
+			return nil
+		case COMMA:
+			tok = l.NextToken()
+		default:
+			return fmt.Errorf("syntax error; token: %q", tok.Literal)
+		}
+	}
+}
